@@ -8,6 +8,7 @@ sha256 over the normalised (operation, outcome) pairs; logging draws nothing.
 
 import collections
 import hashlib
+import os
 import json
 import random
 
@@ -125,6 +126,11 @@ class Property:
         return None
 
 
+# EGSIM_TRACE=<file>: the (operation, outcome) pairs as they are hashed, for
+# finding out why two runs of one seed differ
+_TRACE = open(os.environ["EGSIM_TRACE"], "a") if os.environ.get("EGSIM_TRACE") else None
+
+
 def h64(s):
     return int.from_bytes(hashlib.sha256(s.encode()).digest()[:8], "big")
 
@@ -205,6 +211,8 @@ def _loop(prop, cfg, st, rng, given_ops, res, log, budget, allow_restart):
         res.ops.append(op)
         res.steps += 1
         log.update(jdump([op, out]).encode())
+        if _TRACE is not None:
+            _TRACE.write(jdump([op, out]) + "\n")
         sh = prop.state_hash(st)
         if sh is not None:
             res.states.add(sh)
